@@ -3,6 +3,7 @@ package main
 // Verification units: one per contract block whose body is checked.
 
 import (
+	"sort"
 	"golang.org/x/tools/go/ssa"
 	"fmt"
 	"go/types"
@@ -169,16 +170,24 @@ func (e *Engine) verifyBlock(blk *Block) (u *Unit) {
 					if pn != m || i >= len(fn.Params) {
 						continue
 					}
-					pt, ok := fn.Params[i].Type().Underlying().(*types.Pointer)
-					if !ok {
+					prefixOf := func(t types.Type) string {
+						if pt, ok := t.Underlying().(*types.Pointer); ok {
+							return "H|" + typeKey(pt.Elem()) + "|"
+						}
+						if sl, ok := t.Underlying().(*types.Slice); ok {
+							return "A|" + elemKey(sl.Elem()) + "|"
+						}
+						return ""
+					}
+					prefix := prefixOf(fn.Params[i].Type())
+					if prefix == "" {
 						continue
 					}
-					prefix := "H|" + typeKey(pt.Elem()) + "|"
 					var refs []Term
 					for _, m2 := range blk.Modifies {
 						for j, pn2 := range blk.ParamNames {
 							if pn2 == m2 && j < len(fn.Params) {
-								if pt2, ok2 := fn.Params[j].Type().Underlying().(*types.Pointer); ok2 && "H|"+typeKey(pt2.Elem())+"|" == prefix {
+								if prefixOf(fn.Params[j].Type()) == prefix {
 									refs = append(refs, f.argVals[j][0])
 								}
 							}
@@ -203,6 +212,29 @@ func (e *Engine) verifyBlock(blk *Block) (u *Unit) {
 						c.addObl(&Obligation{Name: fmt.Sprintf("%s/frame:%s@ret%d", name, smtSym(key), ri), Kind: "post", Fn: name, Pos: e.ld.Prog.Fset.Position(fn.Pos()), Text: "modifies " + strings.Join(blk.Modifies, ", ") + "  [" + key + " unchanged elsewhere]", Reach: r.st.Reach, Goal: goal})
 					}
 				}
+			}
+		}
+	}
+	// frame clause "fresh-arrays": backing arrays that existed at entry keep their contents
+	if blk.Flags["fresh-arrays"] && !blk.Flags["trusted"] {
+		for ri, r := range f.rets {
+			var keys []string
+			for key := range r.st.Heap {
+				if strings.HasPrefix(key, "A|") {
+					keys = append(keys, key)
+				}
+			}
+			sort.Strings(keys)
+			for _, key := range keys {
+				fin := r.st.Heap[key]
+				ent := c.heapGet(f.entry, key, fin.Sort)
+				if ent.S == fin.S {
+					continue
+				}
+				c.n++
+				q := Term{fmt.Sprintf("fr!%d", c.n), SInt}
+				goal := Forall([]Term{q}, Implies(Lt(q, f.entry.Alloc), Eq(Select(fin, q), Select(ent, q))))
+				c.addObl(&Obligation{Name: fmt.Sprintf("%s/frame:%s@ret%d", name, smtSym(key), ri), Kind: "post", Fn: name, Pos: e.ld.Prog.Fset.Position(fn.Pos()), Text: "fresh-arrays  [" + key + ": arrays existing at entry unchanged]", Reach: r.st.Reach, Goal: goal})
 			}
 		}
 	}
